@@ -113,6 +113,18 @@ func (w *nftWorkload) Next(block int) []rig.Tx {
 		}
 	}
 	w.followUp = nil
+	if classes := w.sortedClasses(); len(classes) > 0 && block == 12 && !w.quiet {
+		// one owner holds more than a hundred tokens of one class (list queries page at 100)
+		cid := classes[0]
+		if a := findAcc(r, w.model[cid].Creator); a != nil {
+			for i := 0; i < 105; i++ {
+				tid := fmt.Sprintf("tok%d", w.nTok)
+				w.nTok++
+				out = append(out, r.Mk(a, &nftTag{Op: "mint"}, &nfttypes.MsgMintNFT{Id: tid, DenomId: cid, Name: "bulk", URI: "u", Data: "{}", Sender: a.Addr.String(), Recipient: a.Addr.String()}))
+			}
+			w.run.Count("bulk-mint-105-to-one-owner", 1)
+		}
+	}
 	if classes := w.sortedClasses(); len(classes) > 0 && rng.Intn(4) == 0 && !w.quiet {
 		// one transaction, two messages: a valid handover of the class by its creator, then a message that always fails
 		// (burn of a token that does not exist): rolled back as a whole, nothing of the handover may remain
